@@ -1368,7 +1368,7 @@ package gocql
 //@   ensures same(result, h.hostId)
 
 // an address is usable when it is a specified IP; a host when one of its five address fields is
-//@ predicate validip(a): a != nil && !ip_unspec(a, len(a))
+//@ predicate validip(a): a != nil && !ip_unspec(a)
 //@ predicate validhost(h): validip(h.connectAddress) || validip(h.rpcAddress) || validip(h.preferredIP) || validip(h.broadcastAddress) || validip(h.peer)
 
 //@ func validIpAddr
@@ -1546,9 +1546,10 @@ package gocql
 //@   ensures s.policy == old(s.policy) && s.pool == old(s.pool) && s.cfg.HostFilter == old(s.cfg.HostFilter) && s.cfg.Events.DisableNodeStatusEvents == old(s.cfg.Events.DisableNodeStatusEvents)
 //@   count_calls policyConnPool.addHost HostSelectionPolicy.AddHost
 //@   requires s.policy != nil && s.pool != nil && host != nil
-//@   requires ring_wf(s.ring)
-//@   ensures ring_wf(s.ring) && pool_wf(s.pool)
-//@   ensures map_unchanged_except(s.ring.hosts) && same(s.ring.hostList, old(s.ring.hostList))
+//@   ensures old(ring_wf(s.ring)) ==> ring_wf(s.ring)
+//@   ensures pool_wf(s.pool)
+//@   ensures map_unchanged_except(s.ring.hosts)
+//@   ensures same(s.ring.hostList, old(s.ring.hostList))
 // neither the pool nor a policy has access to the ring's maps; a policy has none to the pool's
 //@   stable_across policyConnPool.addHost: s.ring.hosts, s.ring.hostIPToUUID, s.ring.hostList
 //@   stable_across HostSelectionPolicy.AddHost: s.ring.hosts, s.ring.hostIPToUUID, s.ring.hostList, s.pool.hostConnPools
@@ -1596,7 +1597,7 @@ package gocql
 //@   ensures s.cfg.Events.DisableNodeStatusEvents ==> handleNodeUp_calls == 0 && handleNodeDown_calls == 0
 //@   loop 0: invariant -1 <= rangeindex && rangeindex < len(frames) && sEvents != nil && debounceRingRefresh_calls == 0 && handleNodeUp_calls == 0 && handleNodeDown_calls == 0
 //@   loop 0: invariant forall(string(k), haskey(sEvents, k) ==> sEvents[k] != nil)
-//@   loop 0: step typeis(frame, *statusChangeEventFrame) ==> haskey(sEvents, ip_str(unbox(frame, *statusChangeEventFrame).host, len(unbox(frame, *statusChangeEventFrame).host))) && sEvents[ip_str(unbox(frame, *statusChangeEventFrame).host, len(unbox(frame, *statusChangeEventFrame).host))].change == unbox(frame, *statusChangeEventFrame).change
+//@   loop 0: step typeis(frame, *statusChangeEventFrame) ==> haskey(sEvents, ip_str(unbox(frame, *statusChangeEventFrame).host)) && sEvents[ip_str(unbox(frame, *statusChangeEventFrame).host)].change == unbox(frame, *statusChangeEventFrame).change
 //@   loop 0: step typeis(frame, *topologyChangeEventFrame) ==> topologyEventReceived
 //@   loop 1: invariant s.policy != nil && s.pool != nil && (s.cfg.Events.DisableNodeStatusEvents ==> handleNodeUp_calls == 0 && handleNodeDown_calls == 0)
 //@   loop 1: invariant s.cfg.Events.DisableNodeStatusEvents == old(s.cfg.Events.DisableNodeStatusEvents)
@@ -1646,8 +1647,8 @@ package gocql
 //@   requires smt("bool", "(and (not (= $1 $2)) (not (= $1 $3)))", r.session.pool.hostConnPools, r.session.ring.hosts, r.session.ring.hostIPToUUID)
 // reading the peers does not touch the ring or the pools; prevHosts is a private copy
 //@   stable_across GetHosts: r.session.ring.hosts, r.session.ring.hostIPToUUID, r.session.ring.hostList, r.session.pool.hostConnPools
-//@   stable_across Session.removeHost: prevHosts
-//@   stable_across startPoolFill: prevHosts
+//@   stable_across Session.removeHost: prevHosts, hosts
+//@   stable_across startPoolFill: prevHosts, hosts
 //@   before ring.addHostIfMissing: arg1 == h
 //@   before startPoolFill: arg1 == h
 //@   before[@loop0] Session.removeHost: arg1 == existing
